@@ -957,3 +957,8 @@ if sys.argv and sys.argv[0].endswith("worker.py"):
         _warm_up()
     except Exception:   # noqa
         pass
+
+
+# the translated kernels of this property (Gen/Kernels.lean) are run against the real compiled kernels as well
+from checks.harness import genkernels  # noqa: E402
+genkernels.install(globals(), "C19")
